@@ -89,7 +89,7 @@ class C02(Sim):
         if rng.random() < (0.004 if tier == "quick" else 0.01):
             yield self._huge_case(rng)
             return
-        sp = S.gen_spec(rng, activations=["General"], fn_reads_output=False, norm_functions=True)
+        sp = S.gen_spec(rng, activations=["General"], fn_reads_output=False, norm_functions=True, user_terms=["DomainRamp", "InputGain"])
         r0 = rng.random()
         if r0 < 0.06:
             S.make_hybrid_output(rng, sp)
@@ -130,6 +130,8 @@ class C02(Sim):
                     seg["layout"] = "readonly"
                 elif lay < 0.24:
                     seg["layout"] = "float32"
+                elif lay < 0.30:
+                    seg["layout"] = "mixed"
                 ops.append(seg)
             elif r < 0.82:
                 if rng.random() < 0.5:
@@ -271,6 +273,12 @@ class C02(Sim):
                 # the batch arrives as float32 (sensor data, files): both replicas get the float32-rounded values, the
                 # batch replica as float32 arrays, the row replica as Python floats
                 arr = arr.astype(np.float32).astype(np.float64)
+            if op.get("layout") == "mixed":
+                # per-variable arrays of different types (columns of a table with mixed column types): the first input is
+                # narrower than the others - int64 when its values are integral, else float32 (rounded for both replicas)
+                c0 = arr[:, 0]
+                if not (np.isfinite(c0).all() and (c0 == np.floor(c0)).all() and (np.abs(c0) < 2**31).all()):
+                    arr[:, 0] = c0.astype(np.float32).astype(np.float64)
             if setter == "vector" and not (n_in == 1 or k == 1):
                 setter = "matrix"
             if setter == "scalar0d":
@@ -326,6 +334,11 @@ class C02(Sim):
                     elif op.get("layout") == "float32":
                         held = [h.astype(np.float32) for h in held]
                         st.hit("probes.float32_batch")
+                    elif op.get("layout") == "mixed":
+                        c0 = held[0]
+                        integral = np.isfinite(c0).all() and (c0 == np.floor(c0)).all() and (np.abs(c0) < 2**31).all()
+                        held[0] = c0.astype(np.int64 if integral else np.float32)
+                        st.hit("probes.mixed_type_batch")
                     elif op.get("layout") == "readonly":
                         for h in held:
                             h.setflags(write=False)  # e.g. memory-mapped or broadcast data
